@@ -54,7 +54,7 @@ def poly_cases(rng, count, sizes):
         it = rng.choice([1, 2, 3, 4])
         nb = rng.choice([1, 2])
         amp = rng.choice([0.9, 2.5])
-        off = C.offset_family(rng, n, nb, rng.choice(["frac", "affine", "smooth", "whole", "mixed"]), amp)
+        off = C.offset_family(rng, n, nb, rng.choice(["frac", "affine", "smooth", "whole", "mixed", "nearwhole"]), amp)
         coef = {}
         data = [0.0] * (nb * n * n)
         for b in range(nb):
@@ -142,7 +142,7 @@ def oracle_whole(rec, lines):
 def explore(chk, harness, nk, npoly, ncoef, sizes, tag):
     rng = lib.Rng(chk.seed, "C02/" + tag)
     crecs = coeff_cases(rng, ncoef)
-    krecs = K.gen_kick_cases(rng, nk, sizes, fams=["whole", "wholerow", "frac", "mixed"], want_parts=False)
+    krecs = K.gen_kick_cases(rng, nk, sizes, fams=["whole", "wholerow", "frac", "mixed", "nearwhole"], want_parts=False)
     precs = poly_cases(rng, npoly, sizes) + ([edge_poly_witness()] if tag == "main" else [])
     optexts = {r["id"]: r["optext"] for r in crecs + krecs + precs}
     A, B, mism, drift, san = corr.run_correspondence(chk, harness, optexts, tag)
